@@ -28,16 +28,51 @@ func c20DecisionTable(c *Check, a *Anchors) {
 	c.Rule("offline-no-network", "no path with Reader.offline true reaches ReadContext; offline with a cached copy returns the cached bytes, offline without one returns *TaskfileCacheNotFoundError (106); a valid cache without --download is returned without network access")
 	c.Rule("cache-fallback", "on every path where the download failed and a cached copy had been found, the cached bytes are returned with a nil error")
 	var fb *FuncBody
+	// the function that decides what is trusted: the lowest Reader method from which both the download (an invoke of
+	// ReadContext) and the cache write (WriteChecksum) are reached through static calls inside the package — the two halves
+	// may live in helpers of it, which the path enumeration inlines
+	reaches := func(b *FuncBody) (fetch, write bool) {
+		for g := range c.P.ReachableFrom([]*FuncBody{b}, func(x *FuncBody) bool { return x.Pkg.PkgPath != PkgTaskfile }) {
+			if g.Pkg.PkgPath != PkgTaskfile {
+				continue
+			}
+			for _, call := range callsIn(g, true) {
+				if fn, ok := callee(g.Info(), call).(*types.Func); ok {
+					switch fn.Name() {
+					case "WriteChecksum":
+						write = true
+					case "ReadContext":
+						if sel, ok := ast.Unparen(call.Fun).(*ast.SelectorExpr); ok {
+							if tv, ok := g.Info().Types[sel.X]; ok && types.IsInterface(tv.Type) {
+								fetch = true
+							}
+						}
+					}
+				}
+			}
+		}
+		return
+	}
+	cands := map[*FuncBody]bool{}
 	for _, b := range c.P.BodiesIn(PkgTaskfile) {
 		if b.Decl == nil || recvOf(b) != "Reader" {
 			continue
 		}
-		for _, call := range callsIn(b, false) {
-			// the function that WRITES the cache decides what is trusted; the download / prompt may live in helpers of it,
-			// which the path enumeration inlines
-			if fn, ok := callee(b.Info(), call).(*types.Func); ok && fn.Name() == "WriteChecksum" {
-				fb = b
+		if f, w := reaches(b); f && w {
+			cands[b] = true
+		}
+	}
+	for b := range cands {
+		lowest := true
+		for _, call := range callsIn(b, true) {
+			if fn, ok := callee(b.Info(), call).(*types.Func); ok {
+				if d := c.P.DeclOf(fn); d != nil && d != b && cands[d] {
+					lowest = false
+				}
 			}
+		}
+		if lowest && (fb == nil || fnDisplay(b) < fnDisplay(fb)) {
+			fb = b
 		}
 	}
 	if fb == nil {
